@@ -12,6 +12,7 @@ import Driver.Names
 import Driver.Version
 import Driver.Validate
 import Driver.Cache
+import Driver.Apply
 open Lean
 
 def dispatch (j : Json) : Except String Json := do
@@ -24,6 +25,7 @@ def dispatch (j : Json) : Except String Json := do
   | "version" => Driver.Version.handle j
   | "validate" => Driver.Validate.handle j
   | "cache" => Driver.Cache.handle j
+  | "apply" => Driver.Apply.handle j
   | _ => throw s!"unknown stream {stream}"
 
 partial def loop (hin hout : IO.FS.Stream) : IO Unit := do
